@@ -7,12 +7,12 @@ import numpy as np
 from .. import gens
 from ..common import Result
 from ..monitors import bits_equal, fdmap, same_dtype, describe
-from ..procs import run_forked
+from ..procs import run_forked, run_case_forked
 
 PID = 'C12'
 LEVEL = 'exploration'
 RULE = ('generated access sequences (5-30 reads/assignments) on arrays of rank 1-4 (incl. empty first axis) x 6 dtypes x '
-        'both byte orders; index expressions composed from an enumerated pool (ints incl. negative/out of range, slices '
+        'both byte orders; index expressions composed from an enumerated pool (Python and NumPy-scalar ints incl. negative/out of range, slices '
         'with steps/reversed/empty/out of range, Ellipsis, None, tuples up to rank+1, integer-array and boolean-mask '
         'indexing, wrong arity, non-index objects); each access executed outside and inside open_array(); monitors: '
         'NumPy reference (value, shape, dtype, exception class), ownership of the result, fd/map census after every '
@@ -24,7 +24,7 @@ ASSUMPTIONS = ['scalar results are compared as 0-d arrays (Darr returns np.array
                'error classes are compared up to subclass relation']
 ANCHORS = ['array:Array.__getitem__', 'array:Array.__setitem__', 'array:Array._open_array',
            'array:Array.open_array', 'array:Array.check_arraywriteable']
-REQUIRED = ['mon.read_vs_numpy', 'mon.assign_vs_numpy', 'mon.ownership', 'mon.fdmap', 'mon.inside_eq_outside',
+REQUIRED = ['mon.child_status', 'mon.read_vs_numpy', 'mon.assign_vs_numpy', 'mon.ownership', 'mon.fdmap', 'mon.inside_eq_outside',
             'mon.durability_child', 'mon.error_class']
 MIN_NONTRIVIAL = {'quick': 800, 'thorough': 15000}
 
@@ -38,6 +38,7 @@ def axis_pool(n):
             ('s', None, None, -1), ('s', 5, 2, None), ('s', -100, 100, None), ('s', 1, n, 3),
             ('s', None, None, -2), ('s', 0, 0, None), ('e',), ('n',),
             ('l', [0, n - 1, 0]), ('l', [0]), ('l', [n]), ('l', []), ('l', [-1, 0]), ('l2', [[0], [n - 1]]),
+            ('np', 'int64', 0), ('np', 'int64', -1), ('np', 'uint8', 0), ('np', 'intp', n - 1), ('np', 'int16', n),
             ('m', 'axis'), ('m', 'wronglen')]
 
 
@@ -59,6 +60,8 @@ def realise(comp, n, shape, rng):
         return list(comp[1])
     if k == 'l2':
         return np.array(comp[1], dtype='int64')
+    if k == 'np':                                   # NumPy integer scalars are basic indices too
+        return np.dtype(comp[1]).type(comp[2] if comp[2] >= 0 or comp[1] != 'uint8' else 0)
     if k == 'm':
         if comp[1] == 'axis':
             return np.array([(j % 2 == 0) for j in range(n)], dtype=bool)
@@ -130,9 +133,15 @@ def owned(x):
 
 
 def run_case(case, env):
-    res = Result()
     if case['t'] == 'durability':
-        return run_durability(case, env, res)
+        return run_durability(case, env, Result())
+    # every access sequence runs in its own forked child: a result that still points into an unmapped
+    # file kills the child, which is then the observation (not the death of the worker)
+    return run_case_forked(env, case, run_sequence, what=f'access sequence {case}')
+
+
+def run_sequence(case, env):
+    res = Result()
     D = env.darr
     rng = env.rng('seq', case['k'])
     shape = tuple(case['shape'])
@@ -185,15 +194,15 @@ def run_case(case, env):
                                      f'step {step} a[{desc}] ({where}) raised {g[1].__name__}: {g[2]}; NumPy returns {describe(exp[1])}',
                                      step=step, index=desc)
                             break
+                        res.count('mon.ownership')
+                        ok, why = owned(g[1])          # inspected before the values are touched
+                        if not ok:
+                            res.fail('read-result-not-detached', f'step {step} a[{desc}] ({where}): {why}', step=step, index=desc)
+                            break
                         if not bits_equal(np.asarray(g[1]), exp[1]):
                             res.fail('read-value-mismatch',
                                      f'step {step} a[{desc}] ({where}) = {describe(g[1])}, NumPy {describe(exp[1])}',
                                      step=step, index=desc)
-                            break
-                        res.count('mon.ownership')
-                        ok, why = owned(g[1])
-                        if not ok:
-                            res.fail('read-result-not-detached', f'step {step} a[{desc}] ({where}): {why}', step=step, index=desc)
                             break
                         if exp[1].size:
                             goodreads += 1
